@@ -1,5 +1,176 @@
 package props
 
-import "testing"
+import (
+	"fmt"
+	"reflect"
+	"testing"
 
-func c12ApplyCells(t *testing.T) {}
+	"gorgonia.org/tensor"
+	"pgregory.net/rapid"
+)
+
+// Apply: a user function mapped over every element (part of C12, modes of C07).
+
+type ApplyCase struct {
+	DT   string `json:"dt"`
+	A    Opnd   `json:"a"`
+	Mode string `json:"mode"` // safe | unsafe | reuse | incr
+	Sig  string `json:"sig"`  // plain: func(T) T ; err: func(T) (T, error)
+	Dst  *Opnd  `json:"dst,omitempty"`
+}
+
+func init() { register("C12.apply", func() Case { return &ApplyCase{} }) }
+
+func (c *ApplyCase) NTKey() string {
+	if prod(c.A.Shape) < 2 {
+		return ""
+	}
+	if c.Mode == "safe" && c.A.L.IsContig() {
+		return ""
+	}
+	return fmt.Sprintf("%s|%s|%s|%v|%v|%v", c.DT, c.Mode, c.Sig, c.A.Shape, c.A.L, layoutOf(c.Dst))
+}
+
+// applyModel is the non-constant function of the element used by the check.
+func applyModel(d DT, v interface{}) interface{} {
+	switch x := v.(type) {
+	case bool:
+		return !x
+	case string:
+		return x + "!"
+	case uintptr:
+		return x*3 + 1
+	}
+	m, _ := binop("Mul", v, conv(d, 3))
+	r, _ := binop("Add", m, conv(d, 1))
+	return r
+}
+
+func applyFunc(d DT, sig string) interface{} {
+	T := d.T.Type
+	errT := reflect.TypeOf((*error)(nil)).Elem()
+	out := []reflect.Type{T}
+	if sig == "err" {
+		out = append(out, errT)
+	}
+	ft := reflect.FuncOf([]reflect.Type{T}, out, false)
+	return reflect.MakeFunc(ft, func(args []reflect.Value) []reflect.Value {
+		r := reflect.ValueOf(applyModel(d, args[0].Interface()))
+		if sig == "err" {
+			return []reflect.Value{r, reflect.Zero(errT)}
+		}
+		return []reflect.Value{r}
+	}).Interface()
+}
+
+func (c *ApplyCase) Run() string {
+	d := dtByName(c.DT)
+	A, msg := buildOpnd(&c.A, d)
+	if msg != "" {
+		return msg
+	}
+	var Dst *opndB
+	var opts []tensor.FuncOpt
+	switch c.Mode {
+	case "unsafe":
+		opts = append(opts, tensor.UseUnsafe())
+	case "reuse", "incr":
+		if Dst, msg = buildOpnd(c.Dst, d); msg != "" {
+			return msg
+		}
+		if c.Mode == "reuse" {
+			opts = append(opts, tensor.WithReuse(Dst.b.T))
+		} else {
+			opts = append(opts, tensor.WithIncr(Dst.b.T))
+		}
+	}
+	var res tensor.Tensor
+	var lerr error
+	pan := try(func() { res, lerr = A.b.T.Apply(applyFunc(d, c.Sig), opts...) })
+	desc := fmt.Sprintf("Apply(%s, sig %s, mode %s) a=%v%v dst=%v", c.DT, c.Sig, c.Mode, c.A.Shape, c.A.L, layoutOf(c.Dst))
+	if pan != "" {
+		return desc + " panicked: " + pan
+	}
+	if lerr != nil {
+		if Dst != nil && Dst.b.HasGaps() {
+			rec.Class("refused:destination-with-gaps")
+			return ""
+		}
+		if c.Mode == "incr" && !d.IsNum() {
+			rec.Class("refused:incr-non-numeric")
+			return ""
+		}
+		return desc + " refused: " + lerr.Error()
+	}
+	want := A.arr.Map(func(v interface{}) interface{} { return applyModel(d, v) })
+	if c.Mode == "incr" {
+		if !d.IsNum() {
+			return "" // nothing is stated about adding into non-numeric tensors
+		}
+		for k := range want.E {
+			want.E[k], _ = binop("Add", Dst.arr.E[k], want.E[k])
+		}
+	}
+	rd, ok := res.(*tensor.Dense)
+	if !ok || rd == nil {
+		return desc + fmt.Sprintf(" returned %T", res)
+	}
+	dest := A
+	switch c.Mode {
+	case "safe":
+		if rd == A.b.T {
+			return desc + ": safe mode returned the operand"
+		}
+		dest = nil
+	case "reuse", "incr":
+		dest = Dst
+	}
+	if dest != nil && rd != dest.b.T {
+		return desc + ": returned tensor is not the designated destination"
+	}
+	if m := compareAt(rd, want, eqVal); m != "" {
+		return desc + ": result: " + m
+	}
+	if dest != A {
+		if m := A.unchanged("operand"); m != "" {
+			return desc + ": " + m
+		}
+	}
+	if dest != nil && !dest.b.Detached {
+		cur := readAll(dest.b.T)
+		if diff := dest.b.FrameDiff(dest.b.ExpectRoot(cur)); diff != "" {
+			return desc + ": destination's parent outside the view: " + diff
+		}
+	}
+	return ""
+}
+
+// inF19 is the region of known finding F19b: Apply with an increment tensor.
+func inF19(c *ApplyCase) bool { return c.Mode == "incr" }
+
+func c12ApplyCells(t *testing.T) {
+	for _, d := range allDTs {
+		if d.Name == "unsafe.Pointer" {
+			continue
+		}
+		for _, mode := range []string{"safe", "unsafe", "reuse", "incr"} {
+			for _, sig := range []string{"plain", "err"} {
+				d, mode, sig := d, mode, sig
+				cell(t, "C12", "C12.apply", "Apply/"+d.Name+"/"+mode+"/"+sig, nCases(10, 200), func(rt *rapid.T) Case {
+					shape := ewShape(rt)
+					lo, hi := valueRange(d)
+					c := &ApplyCase{DT: d.Name, Mode: mode, Sig: sig}
+					c.A = genOpnd(rt, shape, rapid.SampledFrom(c06LayoutKinds).Draw(rt, "la"), lo, hi, 10, "a")
+					if mode == "reuse" || mode == "incr" {
+						c.Dst = genDst(rt, shape, d, "dst")
+					}
+					if inF19(c) {
+						rec.Class("excluded:F19")
+						c.Mode = "reuse"
+					}
+					return c
+				})
+			}
+		}
+	}
+}
